@@ -4,7 +4,7 @@ from __future__ import annotations
 from sa.terms import C, CallT, G, P, Sub, SubC, is_call, lit_const_values, show, show_fact
 from sa.walker import State
 
-from . import fn_site
+from . import own_site, flat, fn_site
 from .kinds import KINDS, function_decides
 from .vs import envelope, forall_bodies
 
@@ -103,7 +103,7 @@ def run(ctx):
     # ---- R3 sub-validators decide their rows
     used = {}
     for p in sm.paths:
-        for ev in p.events:
+        for ev in flat(p):
             if ev[0] == "call" and ev[2].startswith("repo:") and ev[3]:
                 a = ev[3][0]
                 kind = expected_args.get(a)
@@ -117,7 +117,10 @@ def run(ctx):
     for extra_q, kind in (("common.checkformat_delegation", "delegation"), ("common.checkformat_list_of_hex_keys", "keylist")):
         if extra_q in prog.funcs:
             used.setdefault((extra_q, kind), fn_site(eng, eng.walk(extra_q)))
+    priv = eng.private_helpers("common")
     for (q, kind), st_ in sorted(used.items()):
+        if q in priv:
+            continue  # analysed in place as part of the checker
         ok, detail = function_decides(eng, q, kind)
         ctx.count("R3.subvalidators")
         ctx.ob("R3", "decides|%s|%s" % (q, kind), st_.loc(), "%s %s the '%s' grammar" % (q, "decides exactly" if ok else "does NOT decide exactly", kind), ok, detail if not ok else None)
@@ -128,7 +131,7 @@ def run(ctx):
 def _cause(eng, p, x, m, s, sigs, expected_args):
     facts = set(p.facts) | set(x.conds)
     top = x.chain[0]
-    if len(x.chain) == 1 and x.origin == "explicit":
+    if x.origin == "explicit" and all(own_site(eng, st_, "common.checkformat_delegating_metadata") for st_ in x.chain):
         for k in REQUIRED:
             if ("nothas", s, C(k)) in facts:
                 return "required field '%s'" % k
@@ -142,11 +145,10 @@ def _cause(eng, p, x, m, s, sigs, expected_args):
         return None
     if x.origin == "assert":
         return None
-    for ev in p.events:
-        evs = [ev]
+    for ev in flat(p):
         if ev[0] == "loop-iter":
             continue
-        if ev[0] == "call" and ev[1] == top and ev[5][0] == "raise" and ev[3]:
+        if ev[0] == "call" and (ev[1] == top or ev[1] in x.chain) and ev[5][0] == "raise" and ev[3]:
             a = ev[3][0]
             if a in expected_args:
                 return "%s (%s)" % (show(a), expected_args[a])
@@ -154,6 +156,6 @@ def _cause(eng, p, x, m, s, sigs, expected_args):
                 return "signature entry grammar"
     # implicit errors of the checker's own probing of a non-mapping 'signed' part
     st = State(facts=p.facts)
-    if len(x.chain) == 1 and x.origin == "implicit" and x.exc == "TypeError" and not st.holds(("type", s, frozenset(["dict"]))):
+    if all(own_site(eng, st_, "common.checkformat_delegating_metadata") for st_ in x.chain) and x.origin == "implicit" and x.exc == "TypeError" and not st.holds(("type", s, frozenset(["dict"]))):
         return "'signed' is a mapping (implicit TypeError while probing it)"
     return None
